@@ -132,7 +132,7 @@ PROPS = {
     'C03': {'jobsets': ['decmsg', 'bytes'], 'phases': ['decode'], 'job_filter': r'^(decmsg|bytes)/'},
     'C04': {'jobsets': ['codec'], 'phases': ['encode']},
     'C05': {'jobsets': ['bytes', 'mutmsg'], 'phases': ['decode']},
-    'C08': {'jobsets': ['unit', 'codec', 'decmsg', 'hist'], 'phases': [], 'job_filter': r'unit/descmap|^codec/(Sc|Li_|Mp_s|Df|Uk|Ns|Tw)|^decmsg/|^hist/', 'also_labels': r'^(C08|M-released|deadlock)'},
+    'C08': {'jobsets': ['unit', 'codec', 'decmsg', 'hist'], 'phases': [], 'job_filter': r'unit/descmap|^codec/(Sc|Li_|Mp_s|Df|Uk|Ns|Mr|Tw)|^decmsg/|^hist/', 'also_labels': r'^(C08|M-released|deadlock)'},
     'C09': {'jobsets': ['unit', 'decmsg', 'hist', 'bytes', 'codec'], 'phases': [], 'job_filter': r'unit/bitset|Rq|Hs|By_unk|ScA_|ScD_|Id(Lo|Mid|Hi)',
             'also_labels': r'^(C03 a well-formed|C03 every transmitted|C05 DecodeObject succeeds|C02 bytes equal)'},
     'C10': {'jobsets': ['codec', 'decmsg'], 'phases': [], 'job_filter': r'Df|ScD_|LeafD|NsB',
